@@ -52,7 +52,7 @@ def cppcheck_findings(path, platform="unix64", enable="style,warning", inconclus
 
 
 def verdict_of_msg(msg):
-    m = re.search(r"always (true|false)", msg)
+    m = re.search(r"always (?:evaluates to )?(true|false)", msg)
     if m:
         return m.group(1) == "true"
     return None
